@@ -2,6 +2,10 @@
 import random
 
 from . import common
+
+# tags whose findings legitimately stay separate (none at present)
+UNGROUPED_OK = set()
+
 from . import diaggen as dg
 from . import diag_suite as ds
 from . import nolint_suite
@@ -22,26 +26,47 @@ def run(ctx):
     import re
     cd = os.path.join(common.VERIF, "corpus", "c13")
     tags = {}
-    for i, l in enumerate(open(os.path.join(cd, "a", "a.go")).read().splitlines(), 1):
-        m = re.search(r"//(G\d+)\b", l)
-        if m:
-            tags[i] = m.group(1)
+    for root, _, files in os.walk(cd):
+        for f in files:
+            if f.endswith(".go"):
+                rel = os.path.relpath(os.path.join(root, f), cd)
+                for i, l in enumerate(open(os.path.join(root, f)).read().splitlines(), 1):
+                    m = re.search(r"//(G\d+)\b", l)
+                    if m:
+                        tags[(rel, i)] = m.group(1)
     gbad = []
-    ru, e1 = wt.analyze(cd, flags={"group-error-messages": "false"})
-    rg, e2 = wt.analyze(cd, flags={"group-error-messages": "true"})
+
+    def norm(a):
+        # entries are relative to the working directory of the tool (here /verif), positions to the module
+        for basedir in (cd, common.VERIF, os.getcwd()):
+            q = os.path.normpath(os.path.join(basedir, a))
+            if os.path.exists(q):
+                return os.path.relpath(q, cd)
+        return os.path.normpath(a)
+    # full file paths, so that the entries of an 'other place(s)' list name their file unambiguously
+    ru, e1 = wt.analyze(cd, flags={"group-error-messages": "false", "print-full-file-path": "true"})
+    rg, e2 = wt.analyze(cd, flags={"group-error-messages": "true", "print-full-file-path": "true"})
     if ru is None or rg is None:
         gbad.append("run failed: %s %s" % (e1, e2))
     else:
-        ulines = sorted(d["line"] for d in ru["diags"] or [])
+        ulines = sorted((d["file"], d["line"]) for d in ru["diags"] or [])
         seen = []
         for d in rg["diags"] or []:
-            ls = [d["line"]] + [int(x) for x in re.findall(r"a\.go:(\d+):\d+\"", (re.findall(r"other place\(s\): (.*)\.\)", d["message"]) or [""])[0])]
+            others = (re.findall(r"other place\(s\): (.*)\.\)", d["message"]) or [""])[0]
+            ls = [(d["file"], d["line"])] + [(norm(a), int(b)) for (a, b) in re.findall(r"\"([^\"]+\.go):(\d+):\d+\"", others)]
             seen += ls
-            ts = set(tags.get(x, "untagged:%d" % x) for x in ls)
+            ts = set(tags.get(x, "untagged:%s:%d" % x) for x in ls)
             if len(ts) > 1:
-                gbad.append("the diagnostic at a/a.go:%d groups lines %s whose nil sources differ (%s)" % (d["line"], ls, sorted(ts)))
+                gbad.append("the diagnostic at %s:%d groups %s whose nil sources differ (%s)" % (d["file"], d["line"], ls, sorted(ts)))
         if sorted(seen) != ulines:
             gbad.append("locations reported with grouping off %s, with grouping on (positions and lists) %s" % (ulines, sorted(seen)))
+        # and findings with the same nil source in one package are grouped (the feature is still there)
+        heads = {}
+        for d in rg["diags"] or []:
+            heads.setdefault((d["pkg"], tags.get((d["file"], d["line"]))), []).append(d["line"])
+        for (pk, t), ls in heads.items():
+            if t and t.startswith("G") and len(ls) > 1 and t not in UNGROUPED_OK:
+                gbad.append("findings with the same nil source %s are reported as %d separate diagnostics (lines %s)" % (t, len(ls), ls))
     ctx.obligation("whole tool on corpus/c13 (%d tagged dereferences: same-named methods / functions with same-named locals, interleaved sources): every ungrouped location appears once, only findings with the same nil source share a diagnostic" % len(tags), bool(tags) and not gbad)
     for b in gbad[:2]:
         ctx.violation("grouping", "C13 fails on the real tool: %s\nreplay: bin/harness analyze -dir corpus/c13 [-flag group-error-messages=false]\n" % b)
@@ -82,13 +107,16 @@ def run(ctx):
     finally:
         ds.cleanup(mods)
     full, partial = ds.pretty_oracle(msgs)
-    ctx.obligation("pretty printing only inserts colour escapes, the `error: ` prefix and drops matched double quotes (proved domain of the statement; finding F9) on %d messages" % len(msgs),
-                   full is not None and not partial)
+    f9_known = any(k["id"] == "F9" for k in ctx.known_findings.get("findings", []))
+    ctx.obligation("pretty printing only inserts colour escapes and the `error: ` prefix: stripping them gives back the plain message, on %d messages (%d with double quotes)" % (len(msgs), sum('"' in m for m in msgs)),
+                   full is not None and not partial and (f9_known or not full))
     if full:
         kf = [k for k in ctx.known_findings.get("findings", []) if k["id"] == "F9"]
         ex = full[0]
         if kf:
             ctx.known_finding("F9", "pretty printing re-emits each \"...\" span without its quotes, so stripping the escapes does not give back the plain message (%d of %d messages; e.g. %r)" % (len(full), len(msgs), ex[:80]))
+        else:
+            ctx.violation("pretty-quotes", "C13 fails on the real PrettyPrintErrorMessage: stripping the escape sequences and the `error: ` prefix does not give back the plain message: every matched pair of double quotes is gone (%d of %d messages), e.g.\n%r\n" % (len(full), len(msgs), ex))
     ctx.coverage.update({"evaluations": len(res["cases"]) * 3 + len(msgs), "distinct_nontrivial": len(nontriv),
                          "rule": "synthetic conflict sets as for C11, each run with grouping on and off; non-trivial = grouping actually merges conflicts; plus real and synthetic messages through PrettyPrintErrorMessage",
                          "messages_with_quotes": len(full or [])})
